@@ -426,6 +426,80 @@ fn run_app(case: &Case, fatal_fd: i32) -> ChildResult {
     }
 }
 
+fn run_concurrent(case: &Case, fatal_fd: i32) -> ChildResult {
+    let out = execute_custom(case, fatal_fd, |case| {
+        let wa = case.world.clone();
+        let mut wb = reload_world(&wa, case.params["other_seed"].as_u64().unwrap_or(1));
+        wb.subdir = "b/".into();
+        wb.gz_members = wa.gz_members;
+        sim::with(|s| {
+            for (p, d) in wb.files() {
+                s.put_file(&p, d);
+            }
+        });
+        let pool = crate::harness::make_pool(2);
+        let load = |w: &World| -> Value {
+            let cfg = w.config(false);
+            let g = DefaultGraphBuilder::build(&cfg["graph"]);
+            let sp = SpeedTraversalEngine::new(&w.table_path_pub("speeds"), SpeedUnit::KilometersPerHour, None, None);
+            let graph = match &g {
+                Ok(g) => json!(compare_graph(w, g)),
+                Err(e) => json!({"error": e.to_string()}),
+            };
+            let speeds = match &sp {
+                Ok(e) => {
+                    let got: Vec<f64> = e.speed_table.iter().map(|s| s.as_f64()).collect();
+                    if got == w.speeds { json!([]) } else { json!([format!("speed table has {} rows but the file lists {}", got.len(), w.speeds.len())]) }
+                }
+                Err(e) => json!({"error": e.to_string()}),
+            };
+            json!({"graph": graph, "speeds": speeds, "ne": w.ne()})
+        };
+        sim::set_quiet(false);
+        let (ra, rb) = pool.install(|| rayon::join(|| load(&wa), || load(&wb)));
+        sim::set_quiet(true);
+        drop(pool);
+        json!({"a": ra, "b": rb})
+    });
+    let mut v = vec![];
+    let mut reach: BTreeMap<String, u64> = BTreeMap::new();
+    for p in &out.panics {
+        v.push(Violation { class: format!("panic@{}", p.location), detail: format!("loader panicked: {} at {}", p.message, p.location) });
+    }
+    let eintr_fired: u64 = out.stats.faults.get("eintr_read").copied().unwrap_or(0);
+    if let Some(val) = &out.value {
+        for side in ["a", "b"] {
+            for part in ["graph", "speeds"] {
+                let x = &val[side][part];
+                if let Some(e) = x.get("error") {
+                    if eintr_fired > 0 && e.as_str().map_or(false, |m| m.contains("Interrupted")) {
+                        *reach.entry("load_failed_on_eintr".into()).or_insert(0) += 1;
+                    } else if part == "speeds" && val[side]["ne"].as_u64() == Some(0) {
+                        *reach.entry("empty_table_rejected".into()).or_insert(0) += 1;
+                    } else {
+                        v.push(Violation { class: format!("{}-load-failed", part), detail: format!("[two loads at the same time, network {}] loading failed although its files are intact: {}", side, e) });
+                    }
+                } else if x.as_array().map_or(false, |d| !d.is_empty()) {
+                    v.push(Violation { class: format!("{}-differs", part), detail: format!("[two loads at the same time, network {}] {:?}", side, x) });
+                }
+            }
+        }
+        *reach.entry("concurrent_loads".into()).or_insert(0) += 1;
+    }
+    reach.insert("preemptions".into(), out.stats.preemptions);
+    let w = &case.world;
+    ChildResult {
+        violations: v,
+        nontrivial: w.ne() > 0,
+        signature: fnv64(&format!("{}|{}", serde_json::to_string(&w.edges).unwrap(), out.stats.sched_hash)),
+        reach,
+        sample: json!({"seed": case.seed, "family": case.family, "vertices": w.nv(), "edges": w.ne(), "gz": [w.gz_edges, w.gz_vertices, w.gz_tables], "switches": out.stats.switches}),
+        stats: Some(out.stats.clone()),
+        recorded: Some(out.recorded.clone()),
+        harness_error: None,
+    }
+}
+
 impl Check for C15 {
     fn id(&self) -> &'static str {
         "C15"
@@ -434,11 +508,11 @@ impl Check for C15 {
         "fault_enumeration"
     }
     fn families(&self, _tier: Tier) -> Vec<&'static str> {
-        vec!["legal", "enumerate", "hard", "app-legal", "legal", "enumerate", "app-hard", "nofault", "hard", "app-hard", "enumerate"]
+        vec!["legal", "enumerate", "hard", "app-legal", "legal", "enumerate", "app-hard", "nofault", "hard", "app-hard", "enumerate", "concurrent", "legal"]
     }
     fn default_runs(&self, tier: Tier) -> u64 {
         match tier {
-            Tier::Quick => 33000,
+            Tier::Quick => 39000,
             Tier::Thorough => 600000,
         }
     }
@@ -454,6 +528,23 @@ impl Check for C15 {
         }
         if family.starts_with("app-") {
             return gen_app(seed, family, tier);
+        }
+        if family == "concurrent" {
+            // two networks whose files carry the same names in two directories, loaded at the same time by two
+            // threads of one process (each load must see its own files only)
+            let mut c = self.gen(seed ^ 0x51ED, "legal", tier);
+            c.family = "concurrent".into();
+            let mut r = Rng::new(seed ^ fnv64("C15-concurrent"));
+            c.world.subdir = "a/".into();
+            c.world.gz_misnamed = false;
+            c.params = json!({"other_seed": r.next_u64() >> 12});
+            c.simcfg.sched = sim::SchedMode::Random;
+            c.simcfg.p_stay = *r.pick(&[0.5, 0.8, 0.95]);
+            c.simcfg.alloc_every = *r.pick(&[1u64, 8, 64]);
+            c.simcfg.io_fault_rate = *r.pick(&[0.0, 0.05, 0.3]);
+            c.simcfg.max_steps = 3_000_000;
+            c.workers = 2;
+            return c;
         }
         let mut r = Rng::new(seed ^ fnv64("C15"));
         let gp = match tier {
@@ -519,6 +610,9 @@ impl Check for C15 {
     fn run(&self, case: &Case, fatal_fd: i32) -> ChildResult {
         if case.family.starts_with("app-") {
             return run_app(case, fatal_fd);
+        }
+        if case.family == "concurrent" {
+            return run_concurrent(case, fatal_fd);
         }
         let out = execute_custom(case, fatal_fd, |case| {
             let w = &case.world;
